@@ -67,13 +67,16 @@ def c01(tier):
              + mk("bus", 50 if q else 2000, s + 6, "default", n_ops=70, opts=dict(weights=w), local_only=True)
              # subscribers that read slowly (within the write buffer) and catch up: nothing may be lost on the way
              + mk("slowsub", 120 if q else 4000, s + 7, "default") + mk("slowsub", 60 if q else 2000, s + 8, "smallbuf")
-             + mk("bus", 80 if q else 3000, s + 9, "odd", n_ops=90, opts=dict(weights=w, n_peers=(3, 6))))
+             + mk("bus", 80 if q else 3000, s + 9, "odd", n_ops=90, opts=dict(weights=w, n_peers=(3, 6)))
+             # "visible to that peer": credential file, access groups on elements, authenticated / unauthenticated subscribers,
+             # fetches issued before and after the elements they match
+             + mk("access", 60 if q else 2500, s + 10, "default", n_ops=60, precondition=False))
     # "nothing is delivered for a fetch that was refused / unfetched" also when the refusal is a failed allocation
     fres, fcases = fetch_allocfail_cases(tier, s)
     res = fres + run_cases(cases + fcases)
     return report("C01", "exploration", res,
                   "random histories of add/remove/change/fetch/unfetch/get/connect/disconnect by 2-7 peers over raw, unix and WebSocket transports, random "
-                  "segmentation and epoll batching, plus subscribers whose socket takes the daemon's output slowly (short writes, would-block, refills) without ever overflowing the write buffer, plus one fetch / unfetch with allocation number n failing, for every n (the subscription must exist completely or not at all, as answered); every active fetch's replica (replayed add/change/remove stream) is compared with the reference model at "
+                  "segmentation and epoll batching, plus subscribers whose socket takes the daemon's output slowly (short writes, would-block, refills) without ever overflowing the write buffer, plus one fetch / unfetch with allocation number n failing, for every n (the subscription must exist completely or not at all, as answered), plus histories with a credential file and access groups (visibility); every active fetch's replica (replayed add/change/remove stream) is compared with the reference model at "
                   "every quiescent point and at the fetch response; distinct = (monitor, when, size class, rule kind, transport / response class) signatures observed",
                   t0, tier, SIM_ASSUME, min_events={"replica_checks_nonempty": 1000, "note_remove": 50, "note_change": 50, "resource_refusals": 1})
 
@@ -132,12 +135,14 @@ def c04(tier):
              + mk("cluster", 30 if q else 1000, s + 5, "default", cluster=(48, 3, "end")))
     # "a request that is answered with an error leaves everything as it was" also when the error is a failed allocation
     nres, ncases = ns_allocfail_cases(tier, s)
+    # requests without a usable id (absent, null, bool, object, array) are not answered: their effect is read back
+    cases += mk("idless", 60 if q else 3000, s + 6, "default", n_ops=30) + mk("idless", 20 if q else 1000, s + 7, "tiny", n_ops=30)
     res = nres + run_cases(cases + ncases)
     return report("C04", "exploration", res,
                   "random sequences of add/remove/change/set/call/get by several peers over path strings incl. empty, long, non-ASCII, hash-colliding ones and dense runs of neighbouring home buckets (fill until refused / thin out / refill, also across the end of the table) and "
                   "arbitrary JSON values; after every response the reference map predicts success/error (resource refusals only where a limit can be in play); a "
                   "fetch-all observer's replica and get results are compared with the reference map at every quiescent point; plus one add / change / remove with allocation number n failing, for every n, "
-                  "read back through a fresh connection (an error answer must leave the element, its value and its kind untouched); distinct = (method, expected class, "
+                  "read back through a fresh connection (an error answer must leave the element, its value and its kind untouched); plus add / change / remove without a usable id, read back after every step; distinct = (method, expected class, "
                   "observed class) and get/replica size signatures",
                   t0, tier, SIM_ASSUME, min_events={"get_checks": 1000, "responses": 20000})
 
@@ -263,7 +268,7 @@ def c20(tier):
     sizes = [None, 4095, 4096, 4097, 8192, 12288, 16384]
     res += run_cases([dict(kind="credfile-size", seed=s * 131 + i, config="default", sim=False, params=dict(size=sizes[i % len(sizes)])) for i in range(21 if q else 210)])
     pres, pcases = passwd_allocfail_cases(tier, s)
-    res += pres + run_cases(pcases)
+    res += pres + run_cases(pcases + mk("lookalike-users", 40 if q else 1500, s + 40, "default", n=14))
     return report("C20", "fault_enumeration", res,
                   "(a) file level (authfs harness, real auth_file.c with --wrap'ed file-system calls): for generated credential files (DES/MD5/SHA-256/SHA-512, "
                   "1-6 users, up to 32 groups, below and above 4 KiB) every password change is re-run with a crash before and after each mutating file-system "
@@ -445,6 +450,8 @@ def c13(tier):
     cases += mk("http", 60 if q else 1000, s + 2, "smallbuf", mode="mutate", count=60)
     cases += mk("http", 40 if q else 1000, s + 3, "default", lane="msan", mode="mutate", count=60)
     cases += mk("http", 2 if q else 20, s + 4, "default", lane="msan", mode="templates")
+    for tn in names:
+        cases += mk("http", 3 if q else 60, s + 5 + names.index(tn), "default", mode="shutdown-midway", template=tn, conns=9)
     # "leaves no memory behind" also when the daemon runs out of memory half-way through such an exchange: every allocation of a
     # session that consists of refused exchanges only fails once
     cres = run_cases([dict(kind="allocfail", seed=1, config="default", params=dict(script="http-refused"))])
@@ -460,7 +467,7 @@ def c13(tier):
                   "subprotocol, malformed or over-long lines, ...) must never be answered 101 and must get an HTTP error status or a close; every template "
                   "truncated at EVERY byte then FIN/RST, corrupted at EVERY position (one byte, seeded value), random multi-byte mutations; after each exchange "
                   "the connection must be released; at the end peer count, heap, descriptors, registrations are compared with the baseline and SIGTERM must "
-                  "exit cleanly under ASan/LSan; plus a session of refused exchanges in which allocation number n fails, for every n; distinct = (class, label, status, closed) signatures",
+                  "exit cleanly under ASan/LSan; SIGTERM with connections open in every stage of an exchange (nothing sent, inside the request line, request line accepted, inside the headers, upgraded); plus a session of refused exchanges in which allocation number n fails, for every n; distinct = (class, label, status, closed) signatures",
                   t0, tier, SIM_ASSUME, min_events={"exchanges": 2000, "truncation_points": 300, "corruption_points": 300})
 
 
